@@ -240,8 +240,17 @@ class PeeweeStorage(AbstractStorage):
 
     def insert_one(self, bucket_id: str, event: Event) -> Event:
         e = EventModel.from_event(self.bucket_keys[bucket_id], event)
-        e.save()
-        event.id = e.id
+        if event.id is not None:
+            # An update of an existing event: restrict it to this bucket
+            # (save() matches on the id alone and would move another bucket's event here)
+            EventModel.update(
+                timestamp=e.timestamp, duration=e.duration, datastr=e.datastr
+            ).where(EventModel.id == event.id).where(
+                EventModel.bucket == self.bucket_keys[bucket_id]
+            ).execute()
+        else:
+            e.save()
+            event.id = e.id
         return event
 
     def insert_many(self, bucket_id, events: List[Event]) -> None:
